@@ -32,6 +32,7 @@ func (params *InParams) compile(global *Ast) error {
 				param.GetTname().Tname))
 		} else {
 			param.setIsFile(t.IsFile())
+			param.baseIsFile = baseType(t).IsFile() == KindIsFile
 		}
 	}
 	return errs.If()
@@ -69,6 +70,7 @@ func (param *OutParam) compile(global *Ast) error {
 	} else {
 		// Cache if param is file or path.
 		param.setIsFile(t.IsFile())
+		param.baseIsFile = baseType(t).IsFile() == KindIsFile
 		switch t.(type) {
 		case *BuiltinType, *UserType:
 			param.isComplex = false
